@@ -53,6 +53,16 @@ Theorem C20_uvarint_roundtrip : forall x rest, x < two64 ->
 Proof. exact UvarintProofs.uvarint_put. Qed.
 Print Assumptions C20_uvarint_roundtrip.
 
+(* the decoder on ANY buffer (not only encoder output): a positive count is at most 10 and at most the
+   buffer length, with a value that fits 64 bits; a non-positive count (short buffer, overflow) comes
+   with value 0 - the contract header.Decode and the table/vlog readers rely on *)
+Theorem C20_uvarint_decode_bounds : forall buf,
+  let r := uvarint buf in
+  ((0 < snd r)%Z -> (snd r <= Z.of_nat (length buf))%Z /\ (snd r <= 10)%Z /\ fst r < two64)
+  /\ ((snd r <= 0)%Z -> fst r = 0 /\ (-11 <= snd r)%Z).
+Proof. exact C20Proofs.uvarint_bounds. Qed.
+Print Assumptions C20_uvarint_decode_bounds.
+
 (* header: all uint32 / uint64 / byte field values; decoding ignores what follows; size bound
    is the constant the code allocates (maxHeaderSize, regenerated from structs.go) *)
 Theorem C20_header_roundtrip : forall h rest,
